@@ -105,6 +105,17 @@ def check_batch(o):
               ("PCAVectorModel(inplace)", PCAVectorModel(X.copy(), centre=centre, inplace=True))]
     if X.shape[1] % 2 == 0:
         models.append(("PCAModel", PCAModel([PointCloud(x.reshape(-1, 2)) for x in X], centre=centre)))
+    # object-backed by images: a masked image whose d masked pixels are the features, and a plain one-row image
+    from menpo.image import Image, MaskedImage
+
+    d = X.shape[1]
+    mk = np.zeros((2, d), dtype=bool)
+    mk[np.arange(d) % 2, np.arange(d)] = True
+    templ_m = MaskedImage(np.zeros((1, 2, d)), mask=mk)
+    templ_i = Image(np.zeros((1, 1, d)))
+    templates = {"PCAModel(masked images)": templ_m, "PCAModel(images)": templ_i}
+    for t, templ in templates.items():
+        models.append((t, PCAModel([templ.from_vector(x) for x in X], centre=centre)))
     for tag, m in models:
         r = _check_model(m, n, mean, C, tag)
         if r:
@@ -112,8 +123,11 @@ def check_batch(o):
             continue
         k = m.n_components
         rng = np.random.RandomState(3)
-        as_obj = (lambda v: PointCloud(v.reshape(-1, 2))) if tag == "PCAModel" else (lambda v: v)
-        vec = (lambda r_: r_.as_vector()) if tag == "PCAModel" else (lambda r_: np.asarray(r_).ravel())
+        if tag in templates:
+            as_obj = templates[tag].from_vector
+        else:
+            as_obj = (lambda v: PointCloud(v.reshape(-1, 2))) if tag == "PCAModel" else (lambda v: v)
+        vec = (lambda r_: r_.as_vector()) if tag.startswith("PCAModel") and tag != "PCAVectorModel" else (lambda r_: np.asarray(r_).ravel())
         # exact reconstruction of every training sample with all components kept
         for x in X:
             if not L.close(vec(m.reconstruct(as_obj(x))), x, 1e-8):
